@@ -40,6 +40,20 @@ CHECKS = {
             dict(harness="C01_Sources"),
         ],
     },
+    "C04": {
+        "quick": [
+            dict(harness="C04_T0", cover=["accepted"], bounds="43 concrete templates"),
+            dict(harness="C04_F3", cover=["accepted", "rejected"], bounds="accepted inputs among all 3-rune strings over D: every position field spells its token, nesting and order"),
+            dict(harness="C04_T1", cover=["accepted"], bounds="43 templates x one symbolic hole over D"),
+        ],
+        "thorough": [
+            dict(harness="C04_T0", cover=["accepted"]),
+            dict(harness="C04_F2", cover=["accepted", "rejected"]),
+            dict(harness="C04_F3", cover=["accepted", "rejected"]),
+            dict(harness="C04_F4", cover=["accepted", "rejected"], bounds="accepted inputs among all 4-rune ASCII strings"),
+            dict(harness="C04_T1", cover=["accepted"]),
+        ],
+    },
     "C10": {
         "quick": [
             dict(harness="C10_F2", cover=["fault", "fault-not-reached"], bounds="all 2-rune inputs over D x every fault position k in [0,2] (k symbolic)"),
@@ -185,6 +199,8 @@ META = {
     "C01": dict(text="Totality of ParseCommands within bounds: every feasible path of the real lexer/parser SSA over N free runes (N<=3 quick, 4 thorough), "
                      "over every template with symbolic holes, with symbolic alias tables, under panicnil 0 and 1, ends without caller panic, background-goroutine death, deadlock or budget overrun. " + BOUNDED,
                 note="inputs longer than the bounds, code points outside D and the std decoders behind string/[]byte/io.Reader sources (smoke-tested concretely) are outside the claim; goroutines run under the deterministic baton schedule plus a drain phase after return"),
+    "C04": dict(text="Intrinsic (source, AST) check on every accepting path within the bounds: the source characters at each recorded position spell the documented token (operators, reserved words, quote characters, $ ${ $(( ( ) ` names, literals, #), Pos/End inside the source, Pos <= End, non-empty nodes have non-zero End, children nest, siblings are ordered; columns in characters (non-ASCII representatives included). The source runes are symbolic, so spelling is a solver obligation. " + BOUNDED,
+                note="alias-free; literal spelling is skipped when the source contains a line continuation; when the source contains '<<' only the starts of siblings/children are compared (a here-document redirection ends at its delimiter line); Comment.End is excluded as the property says"),
     "C10": dict(text="The fault position is a solver variable: for every position at which the RuneScanner (or io.Reader) starts failing during the call, ParseCommands returns a non-nil error that is the injected error, on every feasible path within the bounds. " + BOUNDED,
                 note="single persistent fault (once failing, always failing); faults that only a goroutine left behind after the return would hit are not counted (that is C06); deterministic baton schedule"),
     "C11": dict(text="Eval agrees with a C reference evaluator (precedence, associativity, laziness, effects on a map store, faults) for every 64-bit value of the symbolic operands on all shapes within the bounds; value obligations are discharged as identical terms or by z3. " + BOUNDED,
